@@ -51,6 +51,22 @@ func TestWorker(t *testing.T) {
 		explore(p, &job)
 	case "replay":
 		replay(p, &job)
+	case "tracelist":
+		// determinism self-test: per run the trace hash, step count and verdict
+		type tl struct {
+			Run   int    `json:"run"`
+			Trace string `json:"trace"`
+			Steps int    `json:"steps"`
+			Tasks int    `json:"tasks"`
+			Class string `json:"class"`
+			Infra string `json:"infra"`
+		}
+		var outl []tl
+		for run := job.Shard; run < job.Runs; run++ {
+			res := safeExec(p, p.Gen(job.Seed, run, job.Tier, job.Variant))
+			outl = append(outl, tl{run, fmt.Sprintf("%016x", res.Trace), res.Steps, res.Tasks, res.Class, res.Infra})
+		}
+		writeJSON(job.Out, map[string]interface{}{"list": outl})
 	case "gen":
 		writeJSON(job.Out, map[string]interface{}{"plan": p.Gen(job.Seed, job.OnlyRun, job.Tier, job.Variant)})
 	case "shrink":
